@@ -58,7 +58,8 @@ pub fn base_module(b: &Value) -> Vec<u8> {
     let mut m = we::Module::new();
     custom(&mut m, &b["customs"]["early"]);
     let mut types = we::TypeSection::new();
-    types.ty().function([], [we::ValType::I32]); // type 0: () -> i32   (every function of the base)
+    types.ty().function([], [we::ValType::I32]); // type 0: () -> i32   (every function of the base ...)
+    types.ty().function([], []); // type 1: () -> ()   (... except the start function)
     m.section(&types);
     let mut imports = we::ImportSection::new();
     let mut any_imp = false;
@@ -76,7 +77,7 @@ pub fn base_module(b: &Value) -> Vec<u8> {
     let funcs = arr(&b["funcs"]);
     if !funcs.is_empty() {
         let mut fs = we::FunctionSection::new();
-        for _ in &funcs { fs.function(0); }
+        for f in &funcs { fs.function(if f["void"].as_bool().unwrap_or(false) { 1 } else { 0 }); }
         m.section(&fs);
     }
     let tables = arr(&b["tables"]);
@@ -110,6 +111,9 @@ pub fn base_module(b: &Value) -> Vec<u8> {
             es.export(e["name"].as_str().unwrap(), k, u(&e["idx"]));
         }
         m.section(&es);
+    }
+    if !b["start"].is_null() {
+        m.section(&we::StartSection { function_index: u(&b["start"]) });
     }
     let elems = arr(&b["elems"]);
     if !elems.is_empty() {
